@@ -163,14 +163,19 @@ pub trait ExDrawTarget: embedded_graphics_core::geometry::Dimensions {
     spec fn dt_wf(&self) -> bool;
     fn draw_iter<I>(&mut self, pixels: I) -> Result<(), Self::Error>
         where I: IntoIterator<Item = embedded_graphics_core::Pixel<Self::Color>>
-        requires old(self).dt_wf();
+        requires old(self).dt_wf(), iter_lawful(pixels);
     fn fill_contiguous<I>(&mut self, area: &Rectangle, colors: I) -> Result<(), Self::Error>
         where I: IntoIterator<Item = Self::Color>
-        requires old(self).dt_wf(), rect_valid(*area), area.size.width * area.size.height < 0x1_0000_0000;
+        requires old(self).dt_wf(), rect_valid(*area), area.size.width * area.size.height < 0x1_0000_0000, iter_lawful(colors);
     fn fill_solid(&mut self, area: &Rectangle, color: Self::Color) -> Result<(), Self::Error>
         requires old(self).dt_wf(), rect_valid(*area), area.size.width * area.size.height < 0x1_0000_0000;
 }
 
+pub assume_specification [i32::abs_diff] (a: i32, b: i32) -> (r: u32)
+    ensures r as int == (if a >= b { a - b } else { b - a });
+/// R24: `n.try_into().unwrap()` for u32 -> usize; cannot fail where usize has at least 32 bits (here: 64, `global size_of usize == 8`)
+#[verifier::external_body]
+pub fn u32_to_usize(n: u32) -> (r: usize) ensures r == n { n.try_into().unwrap() }
 pub assume_specification [i32::rem_euclid] (a: i32, b: i32) -> (r: i32)
     requires b > 0,
     ensures r as int == (a as int) % (b as int);
